@@ -38,6 +38,12 @@ def make_math():
             return _m.gcd(*a)
         raise Unsupported("math.gcd of symbolic integers")
     A["gcd"] = Builtin("math.gcd", gcd)
+    def prod(I, a, k):
+        acc = k.get("start", 1)
+        for x in ops.iterate(I, a[0]):
+            acc = ops.binop(I, "*", acc, x)
+        return acc
+    A["prod"] = Builtin("math.prod", prod)
     A["sqrt"] = Builtin("math.sqrt", lambda I, a, k: uf1(I, F_sqrt, "sqrt", a[0], lambda z: z >= 0, "ValueError"))
     A["atanh"] = Builtin("math.atanh", lambda I, a, k: uf1(I, F_atanh, "atanh", a[0], lambda z: z3.And(z > -1, z < 1), "ValueError"))
     from .numpy_model import PI
@@ -145,6 +151,28 @@ def make_models(extra_numpy=None):
     M["math"] = make_math()
     M["numpy"] = make_numpy(extra_numpy)
     M["numpy.typing"] = ExtModule("numpy.typing", {"NDArray": TypingMarker("NDArray")})
+    _MISSING = object()
+
+    def reduce_(I, a, k):
+        f, it = a[0], a[1]
+        items = list(ops.iterate(I, it))
+        if len(a) > 2:
+            acc = a[2]
+        elif items:
+            acc, items = items[0], items[1:]
+        else:
+            raise PyExc("TypeError", ("reduce() of empty iterable with no initial value",))
+        for x in items:
+            acc = I.call(f, [acc, x], {})
+        return acc
+    M["functools"] = ExtModule("functools", {"reduce": Builtin("functools.reduce", reduce_)})
+    M["operator"] = ExtModule("operator", {
+        "truediv": Builtin("operator.truediv", lambda I, a, k: ops.binop(I, "/", a[0], a[1])),
+        "mul": Builtin("operator.mul", lambda I, a, k: ops.binop(I, "*", a[0], a[1])),
+        "add": Builtin("operator.add", lambda I, a, k: ops.binop(I, "+", a[0], a[1])),
+        "sub": Builtin("operator.sub", lambda I, a, k: ops.binop(I, "-", a[0], a[1])),
+        "neg": Builtin("operator.neg", lambda I, a, k: ops.unop(I, "USub", a[0])),
+    })
     M["ase.units"] = ExtModule("ase.units", dict(UNITS))
     M["ase"] = ExtModule("ase", {"units": M["ase.units"]})
     M["importlib.metadata"] = ExtModule("importlib.metadata", {"version": Builtin("version", lambda I, a, k: "0")})
